@@ -90,11 +90,17 @@ fn seed_sentinel(app: &TuiApp, id: u32) {
             },
         )),
     );
+    // every third address has no GeoIP entry at all and every third one an entry without coordinates: the
+    // "no GeoIp data for hop" paths of the map view are then reached with GeoIP configured
+    if id % 3 == 1 {
+        return;
+    }
+    let located = id % 3 != 2;
     app.geoip_lookup.verif_seed(
         a,
         GeoIpCity::verif_new(
-            Some(lat(id)),
-            Some(long(id)),
+            if located { Some(lat(id)) } else { None },
+            if located { Some(long(id)) } else { None },
             Some(300 + id as u16),
             Some(format!("GC{id}Z")),
             Some(format!("GS{id}Z")),
